@@ -2,7 +2,9 @@
 From Coq Require Import List Bool String.
 From TS Require Import Model.Str Model.Outcome Model.Unicode Model.Types Model.Parse Model.Reconcile Model.Lang.Decl
                        Model.Lang.TypeScript Model.Lang.Kotlin Model.Lang.Scala Model.Lang.Go Spec.C09Spec.
+From TS Require Import Model.Lang.Swift Model.Lang.Python.
 From TS Require Proofs.C09Common Proofs.C09Recon Proofs.C09Refs Proofs.C09_KotlinFile Proofs.C09Witness Proofs.C09Final.
+From TS Require Proofs.C09_TypeScript Proofs.C09_Scala Proofs.C09_Python Proofs.C09_Swift Proofs.C09_Go.
 Import ListNotations.
 From TS Require Props.C09.
 
@@ -39,6 +41,73 @@ Goal forall (uc : unicode) (cfg : kt_config) (pd : parsed),
       good_C09 Kotlin (kt_prefix cfg) pd (c09_observe Kotlin fd) = true.
 Proof. exact Props.C09.C09_no_rename_Kotlin. Qed.
 Print Assumptions Props.C09.C09_no_rename_Kotlin.
+Goal forall (uc : unicode) (cfg : ts_config) (acrs : list str) (pd : parsed),
+    dom_C09 TypeScript [] pd = true -> known_C09 TypeScript [] acrs pd = None ->
+    forall fd : file_decls, ts_file_decls uc cfg (Proofs.C09Recon.c09_reconciled pd) = Ok fd ->
+      good_C09 TypeScript [] pd (c09_observe TypeScript fd) = true.
+Proof. exact Props.C09.C09_TypeScript. Qed.
+Print Assumptions Props.C09.C09_TypeScript.
+Goal forall (uc : unicode) (cfg : ts_config) (pd : parsed),
+    dom_C09 TypeScript [] pd = true ->
+    (forall e, In e (c09_entities pd) -> c09_renamed_away (c9e_id e) = false) ->
+    forall fd : file_decls, ts_file_decls uc cfg (Proofs.C09Recon.c09_reconciled pd) = Ok fd ->
+      good_C09 TypeScript [] pd (c09_observe TypeScript fd) = true.
+Proof. exact Props.C09.C09_no_rename_TypeScript. Qed.
+Print Assumptions Props.C09.C09_no_rename_TypeScript.
+Goal forall (uc : unicode) (cfg : sc_config) (acrs : list str) (pd : parsed),
+    dom_C09 Scala [] pd = true -> known_C09 Scala [] acrs pd = None ->
+    forall fd : file_decls, sc_file_decls uc cfg (Proofs.C09Recon.c09_reconciled pd) = Ok fd ->
+      good_C09 Scala [] pd (c09_observe Scala fd) = true.
+Proof. exact Props.C09.C09_Scala. Qed.
+Print Assumptions Props.C09.C09_Scala.
+Goal forall (uc : unicode) (cfg : sc_config) (pd : parsed),
+    dom_C09 Scala [] pd = true ->
+    (forall e, In e (c09_entities pd) -> c09_renamed_away (c9e_id e) = false) ->
+    forall fd : file_decls, sc_file_decls uc cfg (Proofs.C09Recon.c09_reconciled pd) = Ok fd ->
+      good_C09 Scala [] pd (c09_observe Scala fd) = true.
+Proof. exact Props.C09.C09_no_rename_Scala. Qed.
+Print Assumptions Props.C09.C09_no_rename_Scala.
+Goal forall (uc : unicode) (cfg : py_config) (acrs : list str) (pd : parsed),
+    dom_C09 Python [] pd = true -> known_C09 Python [] acrs pd = None ->
+    forall fd : file_decls, py_file_decls uc cfg (Proofs.C09Recon.c09_reconciled pd) = Ok fd ->
+      good_C09 Python [] pd (c09_observe Python fd) = true.
+Proof. exact Props.C09.C09_Python. Qed.
+Print Assumptions Props.C09.C09_Python.
+Goal forall (uc : unicode) (cfg : py_config) (pd : parsed),
+    dom_C09 Python [] pd = true ->
+    (forall e, In e (c09_entities pd) -> c09_renamed_away (c9e_id e) = false) ->
+    forall fd : file_decls, py_file_decls uc cfg (Proofs.C09Recon.c09_reconciled pd) = Ok fd ->
+      good_C09 Python [] pd (c09_observe Python fd) = true.
+Proof. exact Props.C09.C09_no_rename_Python. Qed.
+Print Assumptions Props.C09.C09_no_rename_Python.
+Goal forall (uc : unicode) (cfg : sw_config) (acrs : list str) (pd : parsed),
+    dom_C09 Swift (sw_prefix cfg) pd = true -> known_C09 Swift (sw_prefix cfg) acrs pd = None ->
+    forall fd : file_decls, sw_file_decls uc cfg (Proofs.C09Recon.c09_reconciled pd) = Ok fd ->
+      good_C09 Swift (sw_prefix cfg) pd (c09_observe Swift fd) = true.
+Proof. exact Props.C09.C09_Swift. Qed.
+Print Assumptions Props.C09.C09_Swift.
+Goal forall (uc : unicode) (cfg : sw_config) (pd : parsed),
+    dom_C09 Swift (sw_prefix cfg) pd = true ->
+    (forall e, In e (c09_entities pd) -> c09_renamed_away (c9e_id e) = false) ->
+    forall fd : file_decls, sw_file_decls uc cfg (Proofs.C09Recon.c09_reconciled pd) = Ok fd ->
+      good_C09 Swift (sw_prefix cfg) pd (c09_observe Swift fd) = true.
+Proof. exact Props.C09.C09_no_rename_Swift. Qed.
+Print Assumptions Props.C09.C09_no_rename_Swift.
+Goal forall (uc : unicode) (cfg : go_config) (pd : parsed),
+    go_uppercase_acronyms cfg = [] ->
+    dom_C09 Go [] pd = true -> known_C09 Go [] (go_uppercase_acronyms cfg) pd = None ->
+    forall fd : file_decls, go_file_decls uc cfg (Proofs.C09Recon.c09_reconciled pd) = Ok fd ->
+      good_C09 Go [] pd (c09_observe Go fd) = true.
+Proof. exact Props.C09.C09_Go_partial. Qed.
+Print Assumptions Props.C09.C09_Go_partial.
+Goal forall (uc : unicode) (cfg : go_config) (pd : parsed),
+    go_uppercase_acronyms cfg = [] ->
+    dom_C09 Go [] pd = true ->
+    (forall e, In e (c09_entities pd) -> c09_renamed_away (c9e_id e) = false) ->
+    forall fd : file_decls, go_file_decls uc cfg (Proofs.C09Recon.c09_reconciled pd) = Ok fd ->
+      good_C09 Go [] pd (c09_observe Go fd) = true.
+Proof. exact Props.C09.C09_no_rename_Go_partial. Qed.
+Print Assumptions Props.C09.C09_no_rename_Go_partial.
 Goal forall (L : lang) (pfx : str) (pd : parsed),
     (forall e, In e (c09_entities pd) -> c09_renamed_away (c9e_id e) = false) ->
     (forall a, In a (p_aliases pd) -> c09_inline_generic_class L pfx a = None) ->
@@ -93,9 +162,34 @@ Goal Proofs.C09Witness.c09_witness Go [] [lit "id"] Proofs.C09Witness.w_prog
     (go_file_decls uc_exec (Proofs.C09Witness.w_go [lit "id"]) (Proofs.C09Recon.c09_reconciled Proofs.C09Witness.w_prog)) "C09-go-acronym-target" = true.
 Proof. exact Props.C09.C09_go_acronym_target_refuted. Qed.
 Print Assumptions Props.C09.C09_go_acronym_target_refuted.
+Goal Proofs.C09Witness.c09_witness Go [] Proofs.C09Witness.w_acrs Proofs.C09Witness.w_prog_acr
+    (go_file_decls uc_exec (Proofs.C09Witness.w_go Proofs.C09Witness.w_acrs) (Proofs.C09Recon.c09_reconciled Proofs.C09Witness.w_prog_acr))
+    "C09-go-acronym-inner" = true.
+Proof. exact Props.C09.C09_go_acronym_inner_refuted. Qed.
+Print Assumptions Props.C09.C09_go_acronym_inner_refuted.
 Goal dom_C09 Kotlin (lit "KP") Proofs.C09Witness.w_clean = true /\ known_C09 Kotlin (lit "KP") [] Proofs.C09Witness.w_clean = None /\
   exists fd, kt_file_decls uc_exec Proofs.C09Witness.w_kt (Proofs.C09Recon.c09_reconciled Proofs.C09Witness.w_clean) = Ok fd /\
              Nat.leb 8 (List.length (c9_refs (c09_observe Kotlin fd))) = true /\
              good_C09 Kotlin (lit "KP") Proofs.C09Witness.w_clean (c09_observe Kotlin fd) = true.
 Proof. exact Props.C09.C09_Kotlin_nonvacuous. Qed.
 Print Assumptions Props.C09.C09_Kotlin_nonvacuous.
+Goal Proofs.C09Witness.c09_nonvacuous TypeScript [] Proofs.C09Witness.w_clean
+    (ts_file_decls uc_exec Proofs.C09Witness.w_ts (Proofs.C09Recon.c09_reconciled Proofs.C09Witness.w_clean)) = true.
+Proof. exact Props.C09.C09_TypeScript_nonvacuous. Qed.
+Print Assumptions Props.C09.C09_TypeScript_nonvacuous.
+Goal Proofs.C09Witness.c09_nonvacuous Scala [] Proofs.C09Witness.w_clean
+    (sc_file_decls uc_exec Proofs.C09Witness.w_sc (Proofs.C09Recon.c09_reconciled Proofs.C09Witness.w_clean)) = true.
+Proof. exact Props.C09.C09_Scala_nonvacuous. Qed.
+Print Assumptions Props.C09.C09_Scala_nonvacuous.
+Goal Proofs.C09Witness.c09_nonvacuous Python [] Proofs.C09Witness.w_clean
+    (py_file_decls uc_exec Proofs.C09Witness.w_py (Proofs.C09Recon.c09_reconciled Proofs.C09Witness.w_clean)) = true.
+Proof. exact Props.C09.C09_Python_nonvacuous. Qed.
+Print Assumptions Props.C09.C09_Python_nonvacuous.
+Goal Proofs.C09Witness.c09_nonvacuous Swift (lit "OP") Proofs.C09Witness.w_clean
+    (sw_file_decls uc_exec Proofs.C09Witness.w_sw (Proofs.C09Recon.c09_reconciled Proofs.C09Witness.w_clean)) = true.
+Proof. exact Props.C09.C09_Swift_nonvacuous. Qed.
+Print Assumptions Props.C09.C09_Swift_nonvacuous.
+Goal Proofs.C09Witness.c09_nonvacuous Go [] Proofs.C09Witness.w_clean
+    (go_file_decls uc_exec (Proofs.C09Witness.w_go []) (Proofs.C09Recon.c09_reconciled Proofs.C09Witness.w_clean)) = true.
+Proof. exact Props.C09.C09_Go_nonvacuous. Qed.
+Print Assumptions Props.C09.C09_Go_nonvacuous.
